@@ -1,7 +1,8 @@
 (** C02 — bulk array operations equal their element-by-element, row-major definition. *)
 From Coq Require Import ZArith List Lia.
 From OW Require Import Arrays.IntOps Arrays.View Arrays.Ops Arrays.IndexProofs Arrays.AffineProofs
-  Arrays.ContigProofs Arrays.HelperProofs Arrays.MemProofs Arrays.ApplyProofs Arrays.ReshapeProofs.
+  Arrays.ContigProofs Arrays.HelperProofs Arrays.MemProofs Arrays.ApplyProofs Arrays.ReshapeProofs
+  Arrays.HistoryProofs Arrays.CopyProofs.
 Import ListNotations.
 Local Open Scope Z_scope.
 
@@ -49,6 +50,41 @@ Theorem C02_apply_fast_eq_slow : forall (V : Type) (h : @heap V) c g rd v loc di
 Proof. exact (@apply_fast_eq_slow). Qed.
 Print Assumptions C02_apply_fast_eq_slow.
 
+(** ApplySlice (hence CopyFrom = ApplySlice at the origin): whenever the sliced destination is
+    contiguous the code takes copy(dst.Unroll(), src.Unroll()); that fast path and the
+    element-by-element index loop leave the SAME contents in every buffer that existed
+    before the call, for any source back-end and layout, provided the two views address
+    disjoint storage cells (for partially overlapping views they differ: finding
+    overlapping-copy) *)
+Theorem C02_apply_slice_fast_eq_slow : forall (V : Type) (h : @heap V) (a sl src : arr) loc st g rd1 v1 rd2 v2,
+  slice a loc (shape src) st = Some sl -> im a = GoImpl g ->
+  wf_arr h sl rd1 v1 -> steps_pos v1 -> wf_arr h src rd2 v2 -> steps_pos v2 ->
+  adims v1 = adims v2 -> adims v1 <> [] ->
+  contiguous (cm sl) = Some true ->
+  (forall i j, valid_idx (adims v1) i -> valid_idx (adims v1) j -> acell sl rd1 v1 i <> acell src rd2 v2 j) ->
+  exists hf hs,
+    apply_slice h a loc st src = Some hf /\
+    idx_copy_loop h sl src (shape src) (new_index (cm sl) 0) (Z.to_nat (product (shape src))) = Some hs /\
+    agree (length h) hf hs.
+Proof. exact (@apply_slice_fast_eq_slow). Qed.
+Print Assumptions C02_apply_slice_fast_eq_slow.
+
+(** the index loop itself is the row-major list of element writes, with the values the source
+    had before the call *)
+Theorem C02_index_loop_is_row_major_writes : forall (V : Type) (h0 : @heap V) dst src rd1 v1 rd2 v2 shp,
+  adims v1 = shp -> adims v2 = shp -> Forall (fun d => 0 < d) shp ->
+  in_box rd1 v1 -> in_box rd2 v2 -> cm dst = conc rd1 v1 -> cm src = conc rd2 v2 ->
+  (forall i j, valid_idx shp i -> valid_idx shp j -> acell dst rd1 v1 i <> acell src rd2 v2 j) ->
+  forall n k (h : @heap V),
+    0 <= k -> k + Z.of_nat n <= product shp ->
+    storage_ok h (im dst) rd1 -> storage_ok h (im src) rd2 ->
+    (forall j, valid_idx shp j ->
+       hread h (fst (acell src rd2 v2 j)) (snd (acell src rd2 v2 j)) =
+       hread h0 (fst (acell src rd2 v2 j)) (snd (acell src rd2 v2 j))) ->
+    exists ws, copy_ws h0 dst src rd1 v1 rd2 v2 shp k n = Some ws /\
+      idx_copy_loop h dst src shp (unravel shp k) n = writes h ws.
+Proof. exact (@idx_copy_loop_writes). Qed.
+
 (** Reshape fails exactly when element counts differ; ReshapeFast exactly on non-contiguous views *)
 Theorem C02_reshape_fails_iff_count_differs : forall (V : Type) (h : @heap V) a s r,
   reshape h a s = Some r -> (snd r = RErr <-> product s <> product (shape a)).
@@ -81,12 +117,10 @@ Proof. exact maximum_int_spec. Qed.
 Print Assumptions C02_argmax_least_index_of_maximum.
 Print Assumptions C02_increment_is_row_major_successor.
 
-(** NOT proved (C02_bulk_partial): ApplySlice / CopyFrom / ApplyFunc1 / Scale / AddTo fast
-    path = index loop, Reshape's aliasing, Maximum/Minimum as folds.  The model contains both
-    paths literally; their agreement with the row-major abstract specification is established
-    only by the correspondence run (tools/arrays_gen.py is that specification), and it is
-    FALSE for partially overlapping source/destination views (known finding
-    overlapping-copy). *)
+(** NOT proved (C02_bulk_partial): ApplyFunc1 / Scale / AddTo fast path = index loop, the
+    aliasing of Reshape's result, Maximum/Minimum as folds.  The model contains both paths
+    literally; their agreement with the row-major abstract specification is established only by
+    the correspondence run (tools/arrays_gen.py is that specification). *)
 Example C02_nonvacuous :
   contiguous (conc [3;4] (mkAview [1;0] [1;1] [2;4])) = Some true /\
   contiguous (conc [3;4] (mkAview [0;1] [1;1] [3;2])) = Some false /\
